@@ -13,6 +13,7 @@ def m(pid, name, path, old, new, count=1):
 #  C05 repeat-min-zero-accepted (the heuristic never proposes a shortcut inside a {0,n} group),
 #  C09 rcode-match-ignores-type (differs only for the keyword NOERROR exception, a declared don't-care),
 #  C20 index-on-lowercased-copy (lower-casing Latin-1 text keeps every byte offset).
+#  C01 histogram-vs-stored-window (a rule may be filed under any window of its shortcut; only speed changes).
 # ---- C01
 m("C01", "window-loop-off-by-one", "lookup/shortcutstable.go",
   "for i := 0; i <= len(r.URLLowerCase)-shortcutLength; i++ {", "for i := 0; i < len(r.URLLowerCase)-shortcutLength; i++ {")
@@ -20,8 +21,6 @@ m("C01", "no-match-recheck-after-bucket-hit", "lookup/shortcutstable.go",
   "if rule == nil || ruleIn(rule, result) || !rule.Match(r) {", "if rule == nil || ruleIn(rule, result) || !strings.Contains(r.URLLowerCase, rule.Shortcut) {")
 m("C01", "subdomains-skip-full-host", "lookup/domainstable.go",
   "for i := len(parts) - 1; i >= 0; i-- {", "for i := len(parts) - 1; i > 0; i-- {")
-m("C01", "histogram-vs-stored-window", "lookup/shortcutstable.go",
-  "		if count < minCount {\n			minCount = count\n			shortcutHash = hash\n		}", "		if count <= minCount {\n			minCount = count\n		}\n		if count < minCount || shortcutHash == 0 {\n			shortcutHash = hash\n		}")
 m("C01", "domains-table-no-match-recheck", "lookup/domainstable.go",
   "if rule != nil && rule.Match(r) {", "if rule != nil && len(rule.GetPermittedDomains()) > 0 {")
 # ---- C02
